@@ -553,6 +553,9 @@ class Interp:
         m = re.fullmatch(r"[\w:]+::<[^()]*>::(\w+)\((.*)\)", rv)   # enum variant with payload, e.g. GeometryCoordsIter::<'_, T>::Point(move _4)
         if m and not rv.startswith(('copy', 'move', 'const')):
             return Enum(m.group(1), [self.operand(env, x) for x in split_args(m.group(2))])
+        m = re.fullmatch(r'(?:[\w]+::)*(\w+)::(\w+)\((.*)\)', rv)   # variant with payload of a non-generic enum declared in the source
+        if m and not rv.startswith(('copy', 'move', 'const')) and any(m.group(2) in vs for vs in self.mir.enums.get(m.group(1), [])):
+            return Enum(m.group(2), [self.operand(env, x) for x in split_args(m.group(3))])
         m = re.fullmatch(r'[\w:]+(?:::<.*?>)?\((.*)\)', rv)   # tuple-struct ctor, e.g. AffineTransform::<T>(move _2)
         if m and not rv.startswith(('copy', 'move', 'const')):
             return [self.operand(env, x) for x in split_args(m.group(1))]
@@ -607,6 +610,11 @@ class Interp:
         m = re.fullmatch(r'<\w+ as Partial(?:Ord|Eq)>::(\w+)', c)
         if m:
             op = {'gt': 'Gt', 'lt': 'Lt', 'ge': 'Ge', 'le': 'Le', 'eq': 'Eq', 'ne': 'Ne'}[m.group(1)]
+            if isinstance(d[0], Enum) or isinstance(d[1], Enum):
+                if op not in ('Eq', 'Ne'):
+                    raise Untranslatable('ordering comparison of enum values')
+                eq = self.struct_eq(d[0], d[1])
+                return [(pc, eq if op == 'Eq' else ((not eq) if isinstance(eq, bool) else z3.Not(eq)))]
             return [(pc, self.cmp(op, d[0], d[1]))]
         if re.fullmatch(r'<\w+ as NumCast>::from::<.*>', c):
             # source and target are the same scalar in every use inside the claimed functions
@@ -635,6 +643,16 @@ class Interp:
             return [(pc, d[0])]
         if re.fullmatch(r'<&(\[.*\]|Vec<.*>) as IntoIterator>::into_iter', c) and isinstance(d[0], list):
             return [(pc, SliceIter(d[0]))]
+        if re.fullmatch(r'<.* as Iterator>::next', c) and isinstance(d[0], Adaptor):
+            # materialise on first use (only for adaptor chains that cannot fork); the adaptor then behaves as a slice iterator
+            if not hasattr(d[0], 'mat'):
+                outs = self.drain(d[0], pc, depth)
+                if len(outs) != 1:
+                    raise Untranslatable('next() on an adaptor chain whose contents depend on a symbolic condition')
+                d[0].mat = SliceIter([deref(x) for x in outs[0][1]])
+            d[0] = d[0].mat
+        if re.fullmatch(r'(std::iter::)?once::<.*>', c):
+            return [(pc, SliceIter([d[0]]))]
         if re.fullmatch(r'<.* as Iterator>::next', c) and isinstance(d[0], SliceIter):
             it = d[0]
             if it.pos < len(it.items):
@@ -750,6 +768,9 @@ class Interp:
             return [(pc, Enum('Some', [[Ref(lambda v=v, k=k: v.base[k], lambda x, v=v, k=k: v.base.__setitem__(k, x)), SliceView(v.base, k + 1, v.end)]]))]
         if re.fullmatch(r'core::num::<impl usize>::saturating_sub', c) and isinstance(d[0], int) and isinstance(d[1], int):
             return [(pc, max(d[0] - d[1], 0))]
+        m = re.fullmatch(r'(?:Option|Result)::<.*>::(is_some|is_none|is_ok|is_err)', c)
+        if m and isinstance(d[0], Enum):
+            return [(pc, d[0].variant == {'is_some': 'Some', 'is_none': 'None', 'is_ok': 'Ok', 'is_err': 'Err'}[m.group(1)])]
         if re.fullmatch(r'Option::<.*>::expect', c):
             e = d[0]
             if isinstance(e, Enum) and e.variant == 'Some':
